@@ -257,8 +257,15 @@ def main(replay=None):
         zi, fi = core.fparse(line)
         if zi is None or zi[0] != 0:
             ck.violation("numeric: implementation failed on %s" % kind, "HeadMat/SVD/invert failed on %s: %s" % (name, line[:100]), rp); continue
-        n, npot, ndefl, nparts, nmesh = zi[1:6]; worst, smin, smax, resid = fi
-        numeric.append(dict(model=name, n=n, potentials=npot, deflated_rows=ndefl, parts=nparts, rowsum_rel=worst, smin=smin, smax=smax, resid=resid))
+        n, npot, ndefl, nparts, nmesh, ncav = zi[1:7]; worst, smin, smax, resid, cav = fi
+        numeric.append(dict(model=name, n=n, potentials=npot, deflated_rows=ndefl, parts=nparts, rowsum_rel=worst, smin=smin, smax=smax, resid=resid,
+                            cavity_walls=ncav, cavity_indicator_residual=cav))
+        if ncav > 0 and cav > 1e-9:
+            ck.violation("cavity wall: indicator not in the kernel (%s)" % kind,
+                         "%s has %d current-barrier mesh(es) that deflate never touches, but |A*1_W|/max|A| = %.3g: theorem cavity_wall_indicator_in_kernel predicts 0 (Gauss' law for the D kernel or the block structure no longer holds)" % (name, ncav, cav), rp)
+        if not (smin > 1e-10 * smax) and ncav == 0 and nparts > 0:
+            ck.violation("singular head matrix without a cavity wall: %s" % kind,
+                         "the head matrix of %s is singular (sigma_min/sigma_max = %.3g) although every current-barrier mesh is deflated: not explained by cavity_wall_indicator_in_kernel" % (name, smin / smax if smax else 0.0), rp)
         if worst > 1e-9:
             ck.violation("row sums: %s" % kind, "a potential row off the deflated outer surfaces does not sum to zero over the potential columns on %s: |sum|/sum|.| = %.3g (theorem potential_rows_sum_zero_off_outer)" % (name, worst), rp)
         if not (smin > 1e-10 * smax):
